@@ -5,6 +5,7 @@ import (
 	"encoding/json"
 	"fmt"
 	"math/big"
+	"reflect"
 
 	"github.com/Oneledger/protocol/action"
 	"github.com/Oneledger/protocol/consensus"
@@ -29,7 +30,10 @@ import (
 // signature (11 = dropped, 12 = changed: where a signature carries a byte the verification does not
 // read — a recovery id — every value of it is another spelling); 13 names the other algorithm
 // that accepts the same key bytes: a SECP256K1 entry as BTCEC with the DER encoding of the same
-// (r, s), a BTCEC entry as SECP256K1 with r || s.
+// (r, s), a BTCEC entry as SECP256K1 with r || s; 14 sets every DECLARED field of the envelope that
+// is neither part of the signed content (the embedded RawTx) nor the signature list to a non-zero
+// value: the canonical-encoding guard reproduces declared fields, so such a field would be a free
+// parameter of every transaction (on the unchanged tree there is none and the class does not apply).
 func Reencode(tx []byte, how int) []byte {
 	if how == 3 {
 		return append(append([]byte{}, tx...), ' ', '\n')
@@ -66,6 +70,37 @@ func Reencode(tx []byte, how int) []byte {
 			st.Signatures[0].Signer = keys.PublicKey{KeyType: k.KeyType, Data: d}
 		case 9:
 			st.Signatures[0].Signed = append(append([]byte{}, st.Signatures[0].Signed...), 0)
+		case 14:
+			v := reflect.ValueOf(st).Elem()
+			changed := false
+			for i := 0; i < v.NumField(); i++ {
+				f := v.Type().Field(i)
+				if f.Anonymous || f.Name == "Signatures" || !v.Field(i).CanSet() {
+					continue
+				}
+				switch v.Field(i).Kind() {
+				case reflect.String:
+					v.Field(i).SetString("x")
+					changed = true
+				case reflect.Int, reflect.Int8, reflect.Int16, reflect.Int32, reflect.Int64:
+					v.Field(i).SetInt(1)
+					changed = true
+				case reflect.Uint, reflect.Uint8, reflect.Uint16, reflect.Uint32, reflect.Uint64:
+					v.Field(i).SetUint(1)
+					changed = true
+				case reflect.Bool:
+					v.Field(i).SetBool(true)
+					changed = true
+				case reflect.Slice:
+					if f.Type.Elem().Kind() == reflect.Uint8 {
+						v.Field(i).SetBytes([]byte{1})
+						changed = true
+					}
+				}
+			}
+			if !changed {
+				return nil
+			}
 		case 11:
 			if n := len(st.Signatures[0].Signed); n > 1 {
 				st.Signatures[0].Signed = append([]byte{}, st.Signatures[0].Signed[:n-1]...)
@@ -137,7 +172,7 @@ func Reencode(tx []byte, how int) []byte {
 // (byte-identical, or the same signed content re-encoded). The property holds iff the
 // resubmission is rejected by CheckTx and A's results and application hash stay equal to B's.
 func RunReplay(seed uint64, histories, blocks, maxTxs int) (*Result, error) {
-	res := NewResult("replay", seed, "case = one generated block history on twin replicas; A's blocks additionally carry resubmissions (byte-identical, or re-encoded: indentation, key order, unknown field, trailing whitespace, and altered unsigned envelope parts: duplicated / empty / stranger's extra signature entry, first signer key re-spelled: amino-prefixed / uncompressed point / trailing zero byte, first signature re-spelled: trailing zero byte / the twin signature (r, N-s) resp. (R, s+L) / last byte dropped / last byte changed, first signature entry under the other algorithm that takes the same key bytes (SECP256K1 <-> BTCEC); every second history has SECP256K1, BTCEC and ETHSECP signers besides ED25519) of transactions that succeeded earlier, each first offered to CheckTx; monitor: CheckTx code != 0 and A's application hash / other results equal B's; non-trivial = at least one resubmission of a successful state-changing tx delivered at a later height; distinct = SHA-256 of the lines")
+	res := NewResult("replay", seed, "case = one generated block history on twin replicas; A's blocks additionally carry resubmissions (byte-identical, or re-encoded: indentation, key order, unknown field, trailing whitespace, and altered unsigned envelope parts: duplicated / empty / stranger's extra signature entry, first signer key re-spelled: amino-prefixed / uncompressed point / trailing zero byte, first signature re-spelled: trailing zero byte / the twin signature (r, N-s) resp. (R, s+L) / last byte dropped / last byte changed, first signature entry under the other algorithm that takes the same key bytes (SECP256K1 <-> BTCEC), every declared envelope field outside the signed content and the signature list set to a non-zero value; every second history has SECP256K1, BTCEC and ETHSECP signers besides ED25519) of transactions that succeeded earlier, each first offered to CheckTx; monitor: CheckTx code != 0 and A's application hash / other results equal B's; non-trivial = at least one resubmission of a successful state-changing tx delivered at a later height; distinct = SHA-256 of the lines")
 	root := rng.New(seed*77 + 3)
 	for c := 0; c < histories; c++ {
 		r := root.Fork()
@@ -189,7 +224,7 @@ func RunReplay(seed uint64, histories, blocks, maxTxs int) (*Result, error) {
 				if r.Intn(3) == 0 {
 					extra = o.b
 				} else {
-					how = r.Intn(14)
+					how = r.Intn(15)
 					extra = Reencode(o.b, how)
 					if extra == nil {
 						how = 3
